@@ -260,6 +260,16 @@ def _dispatcher_and_serial(project, st):
         if cands:
             _size, n, arm = min(cands, key=lambda c: c[0])
             return caller, n, arm
+        # `if parallel > 1: <the stage>; return` followed by the serial code: the rest of the block is the other arm
+        for owner in [caller.node] + [x for x in own_nodes(caller.node) if isinstance(x, (ast.If, ast.For, ast.While, ast.With, ast.Try))]:
+            for fld in ("body", "orelse", "finalbody"):
+                blk = getattr(owner, fld, None)
+                if not isinstance(blk, list):
+                    continue
+                for i, n in enumerate(blk):
+                    if isinstance(n, ast.If) and not n.orelse and any(c is call for s in n.body for c in ast.walk(s)) \
+                            and n.body and isinstance(n.body[-1], ast.Return) and blk[i + 1:]:
+                        return caller, n, blk[i + 1:]
     return None, None, None
 
 
@@ -305,9 +315,9 @@ def _r2_r3_producer(run, st, work_queues):
         for c in ast.walk(s):
             if isinstance(c, ast.Call):
                 tgt = common.resolve_callee(project, caller, c)
-                if tgt is not None and tgt is not st.func and tgt.module.name.startswith("toasty") \
+                if tgt is not None and tgt.qual != st.func.qual and tgt.module.name.startswith("toasty") \
                         and _has_loop(tgt.node):
-                    serial_func = tgt
+                    serial_func = common.splice(project, tgt)      # (a loop over a generator helper is that helper's loop)
     if serial_func is not None:
         run.note_func(serial_func)
         sres = _producer_facts(project, serial_func)
@@ -392,7 +402,8 @@ def _call_args_of(project, caller, callee_func):
     ev = sym.make_evaluator(project, caller.module.name, [])
     r = ev.run(caller.node)
     for e in r.events:
-        if e.kind == "call" and common.resolve_callee(project, caller, e.node) is callee_func:
+        tgt_ = common.resolve_callee(project, caller, e.node) if e.kind == "call" else None
+        if tgt_ is not None and (tgt_ is callee_func or tgt_.qual == callee_func.qual):
             params = callee_func.params()
             if callee_func.cls is not None and params and params[0] in ("self", "cls"):
                 params = params[1:]
